@@ -23,17 +23,22 @@ Op grammar (one label per record; observation after `=>`):
   change <tools|prompts|resources|templates> <add|replace|remove|noop>  => ok
   advance <ms>                                     => hook1: `fired <kinds…>` ; hook0: ok (the harness then emits the cbrun records itself)
   cbrun <kind>                                     => sent@<t> c<slot>:<method>:<stamp>:<handler>…   | none
+  cbrun <kind> step                                => fan open | fan done | none    (the callback takes its snapshot; its fan-out loop is then held before every write)
+  fsend <kind>                                     => <c<i>|x<sid>> sent@<t> [c<i>:<method>:<stamp>:<handler>] more|done   (the write the held fan-out is blocked in goes on; the first token says whom it is addressed to — the loop's order over a Go map is not determined, the model follows it)
+  policy u<j> refuse|accept                        => ok          (what ServerOptions.SubscribeHandler answers for that URI from now on)
+  canceldone c<i> <m|r<j>|L<n>>                    => ok          (the held notifications/cancelled of that listen is written; its handler ends)
   connect c<i> <sid> legacy|modern <mask>          => ok | ok listen-held
   listen c<i> [hold]                               => ack <kinds|-> [parked]
   subscribe c<i> u<j> [hold] / unsubscribe c<i> u<j>  => ok | noop | ack - u<j> [parked]
-  xlisten c<i> L<n> <mask|-> [u<j>] [hold]         => ack <kinds|-> [u<j>] [parked]   (a further, raw subscriptions/listen of a connected 2026-07-28 session; kinds only or one URI)
-  xend c<i> <m|L<n>>                               => ok          (that listen is cancelled and its handler has ended; r<j> ends through unsubscribe)
+  xlisten c<i> L<n> <mask|-> u<j>… [hold]          => ack <kinds|-> u<j>… [parked] | noack   (a further, raw subscriptions/listen of a connected 2026-07-28 session: any kinds and any number of distinct URIs; noack: the SubscribeHandler refused one of them)
+  xend c<i> <m|L<n>> [hold]                        => ok | ok cancel-held   (that listen is cancelled and its handler has ended; r<j> ends through unsubscribe; hold: the client's notifications/cancelled is held in its transport until `canceldone`)
+  unsubscribe c<i> u<j> hold                       => ok cancel-held   (2026-07-28: ClientSession.Unsubscribe has returned — cs.resourceSubs no longer has the URI —, the cancellation is held)
   ackdone c<i> <m|r<j>|L<n>>                       => ok          (the handler held right after its ack write goes on)
   close c<i>                                       => ok
-  rupdated u<j>                                    => sent@<t> …
+  rupdated u<j> [names u<k>]                       => sent@<t> …   (names: the notification the subscribers of u<j> get names u<k>, whose content changed)
   list c<i> <tools|prompts|resources|templates|read:j> <n|post|pre>  => ret v<N> hit|miss | held v<N> | pre
   send c<i> <key> => held v<N> ;  fill c<i> <key> => ret v<N> miss
-  tables                                           => T[..] P[..] R[..] U0[..] U1[..] S[..]
+  tables                                           => T[..] P[..] R[..] U0[..] U1[..] U2[..] S[..]
   end                                              => ok
 -/
 namespace Notify.Drv
@@ -106,6 +111,7 @@ structure DSlot where
   caches : List (CacheObj × Cache.State) := []
   held : List String := []
   parked : List String := []   -- listen handlers held right after their ack write: "m", "r<j>"
+  cancelHeld : List String := []   -- listens whose notifications/cancelled is held in the client's transport
 
 structure Sys where
   srv : Server := init (fun _ => .unset)
@@ -114,6 +120,7 @@ structure Sys where
   content : Nat → Nat := fun _ => 0
   slots : List DSlot := [{}, {}, {}]
   configured : Bool := false
+  refused : List Nat := []     -- URIs ServerOptions.SubscribeHandler refuses
 
 def Sys.slot (y : Sys) (i : Nat) : DSlot := y.slots.getD i {}
 
@@ -182,13 +189,14 @@ def deliverChanged (y : Sys) (k : Kind) (to : List Send) (at_ : Nat) : Sys × St
        acc.2 ++ [(i, s!"c{i}:{listChangedMethod k}:{stampTok x.stamp}:{hk}")])) (y, [])
   (y, fmtSent at_ toks)
 
-def deliverUpdated (y : Sys) (u : Nat) (to : List Send) : Sys × String :=
+/-- The subscribers of `u` (`to`) get a notification that names `v`; each client invalidates `v`. -/
+def deliverUpdated (y : Sys) (_u v : Nat) (to : List Send) : Sys × String :=
   let (y, toks) := to.foldl (fun (acc : Sys × List (Nat × String)) x =>
     match slotOfSid acc.1 x.sid with
     | none => (acc.1, acc.2 ++ [(9, s!"c?{x.sid}:{resourceUpdatedMethod}:{stampTok x.stamp}:?")])
     | some i =>
-      (acc.1.setSlot i (clientHandleUpdated (acc.1.slot i) u),
-       acc.2 ++ [(i, s!"c{i}:{resourceUpdatedMethod}:{stampTok x.stamp}:u{u}")])) (y, [])
+      (acc.1.setSlot i (clientHandleUpdated (acc.1.slot i) v),
+       acc.2 ++ [(i, s!"c{i}:{resourceUpdatedMethod}:{stampTok x.stamp}:u{v}")])) (y, [])
   (y, fmtSent y.srv.now toks)
 
 def fireOrphansDue (k : Kind) : Nat → Server → List Nat → Server × List Nat
@@ -220,7 +228,7 @@ def tablesStr (y : Sys) : String :=
   let u (i : Nat) : String :=
     s!"U{i}" ++ dump ((y.srv.rsubs.filter (fun r => r.1 == i)).map (fun r => (r.2.1, r.2.2)))
   let sess := sortBy (fun a b => a ≤ b) (y.srv.sessions.map (fun p => slotName p.1))
-  s!"T{dump (y.srv.ks .tools).subs} P{dump (y.srv.ks .prompts).subs} R{dump (y.srv.ks .resources).subs} {u 0} {u 1} S[" ++
+  s!"T{dump (y.srv.ks .tools).subs} P{dump (y.srv.ks .prompts).subs} R{dump (y.srv.ks .resources).subs} {u 0} {u 1} {u 2} S[" ++
     String.intercalate " " sess ++ "]"
 
 def ackStr (kinds : List Kind) (uris : List Nat) : String :=
@@ -235,13 +243,40 @@ def firstAck (outs : List Out) : String :=
 def listenBoth (s : Server) (sid id : Nat) (kinds : List Kind) (uris : List Nat) : Server × List Out :=
   listenAck (listen s sid id kinds uris) sid id
 
+/-- … unless `SubscribeHandler` refuses one of the granted URIs: then the handler returns the error
+without acknowledging, and its deferred functions undo what it had registered. -/
+def listenOrRefuse (y : Sys) (sid id : Nat) (kinds : List Kind) (uris : List Nat) : Server × List Out :=
+  let au := if resSub y.srv then uris else []
+  match au.findIdx? (fun u => y.refused.contains u) with
+  | some n => (listenRefused y.srv sid id kinds uris n, [])
+  | none => listenBoth y.srv sid id kinds uris
+
+/-- The first `n` writes of the newest snapshot of kind `k` (the outstanding sends from index `old` on). -/
+def deliverFrom (s : Server) (k : Kind) (old : Nat) : Nat → List Send → Server × List Send
+  | 0, acc => (s, acc)
+  | n + 1, acc =>
+    let (s1, o) := deliver s k old
+    deliverFrom s1 k old n (acc ++ o.filterMap (fun x => match x with | .sent _ x => some x | _ => none))
+
+def slotNameOfSid (y : Sys) (sid : Nat) : String :=
+  match slotOfSid y sid with
+  | some i => s!"c{i}"
+  | none => s!"x{sid}"
+
+/-- `c<i>` / `x<sid>` ↦ session id. -/
+def sidOfName (y : Sys) (n : String) : Option Nat :=
+  if n.startsWith "x" then (n.drop 1).toNat?
+  else match parseSlot n with
+    | some i => if (y.slot i).used then some (y.slot i).sid else none
+    | none => none
+
 def holdTok : List String → Option Bool
   | [] => some false
   | ["hold"] => some true
   | _ => none
 
 /-- One label on the composed model: new state and the predicted observation. -/
-def modelStep (y : Sys) (toks : List String) : Sys × String :=
+def modelStep (y : Sys) (toks : List String) (impl : String) : Sys × String :=
   match toks with
   | ["config", a, b, c, h] =>
     match parseCap a, parseCap b, parseCap c with
@@ -273,10 +308,46 @@ def modelStep (y : Sys) (toks : List String) : Sys × String :=
     match parseKind k with
     | none => (y, "bad-op")
     | some k =>
+      let old := (y.srv.ks k).inflight.length
       let (s, outs) := cbrun y.srv k
       match outs with
-      | [.changed _ to] => deliverChanged { y with srv := s } k to y.srv.now
+      | [.changed _ to] =>
+        -- the whole fan-out of this snapshot at once (a held fan-out of the same kind stays where it is)
+        let (s, sent) := deliverFrom s k old to.length []
+        deliverChanged { y with srv := s } k sent y.srv.now
       | _ => (y, "none")
+  | ["cbrun", k, "step"] =>
+    match parseKind k with
+    | none => (y, "bad-op")
+    | some k =>
+      if !y.hook || !(y.srv.ks k).inflight.isEmpty then (y, "refused") else
+      let (s, outs) := cbrun y.srv k
+      match outs with
+      | [.changed _ to] => ({ y with srv := s }, if to.isEmpty then "fan done" else "fan open")
+      | _ => (y, "none")
+  | ["fsend", k] =>
+    match parseKind k with
+    | none => (y, "bad-op")
+    | some k =>
+      let infl := (y.srv.ks k).inflight
+      if infl.isEmpty then (y, "refused") else
+      -- the order of the loop over the subscriber map is not determined: follow the implementation
+      let hint := (words impl).head?.bind (sidOfName y)
+      let idx := match hint with
+        | some sid => (infl.findIdx? (fun x => x.sid == sid)).getD 0
+        | none => 0
+      let addr := slotNameOfSid y (infl.getD idx ⟨0, none⟩).sid
+      let (s, outs) := deliver y.srv k idx
+      let sent := outs.filterMap (fun x => match x with | .sent _ x => some x | _ => none)
+      let (y, str) := deliverChanged { y with srv := s } k sent y.srv.now
+      (y, s!"{addr} {str} " ++ (if (s.ks k).inflight.isEmpty then "done" else "more"))
+  | ["policy", u, pol] =>
+    match parseUri u with
+    | some u =>
+      if pol == "refuse" then ({ y with refused := if y.refused.contains u then y.refused else y.refused ++ [u] }, "ok")
+      else if pol == "accept" then ({ y with refused := y.refused.filter (· != u) }, "ok")
+      else (y, "bad-op")
+    | none => (y, "bad-op")
   | ["connect", c, sid, g, m] =>
     match parseSlot c, sid.toNat? with
     | some i, some sid =>
@@ -295,7 +366,7 @@ def modelStep (y : Sys) (toks : List String) : Sys × String :=
     | some i, some hold =>
       let d := y.slot i
       if !d.used || !d.gated then (y, "refused") else
-      let (s, outs) := listenBoth y.srv d.sid 0 d.mask []
+      let (s, outs) := listenOrRefuse y d.sid 0 d.mask []
       let a := firstAck outs
       let parks := hold && a != "noack"
       let d := { d with gated := false, connected := true, parked := if parks then d.parked ++ ["m"] else d.parked }
@@ -307,37 +378,52 @@ def modelStep (y : Sys) (toks : List String) : Sys × String :=
       let d := y.slot i
       if !d.used || !d.connected then (y, "refused") else
       if !d.modern then
-        if hold then (y, "refused") else ({ y with srv := subscribe y.srv d.sid 99 u }, "ok") else
+        if hold then (y, "refused") else
+        if y.refused.contains u then (y, "err") else ({ y with srv := subscribe y.srv d.sid 99 u }, "ok") else
+      if d.cancelHeld.contains s!"r{u}" then (y, "refused") else
       if d.rsubs.contains u then (y, "noop") else
-      let (s, outs) := listenBoth y.srv d.sid (u + 1) [] [u]
+      let (s, outs) := listenOrRefuse y d.sid (u + 1) [] [u]
       let a := firstAck outs
       let parks := hold && a != "noack"
       let d := { d with rsubs := d.rsubs ++ [u], parked := if parks then d.parked ++ [s!"r{u}"] else d.parked }
+      let d := d.setCache .read (Cache.step true (d.cache .read) (.sub u)).1
       (({ y with srv := s }).setSlot i d, if parks then a ++ " parked" else a)
     | _, _, _ => (y, "bad-op")
   | "xlisten" :: c :: name :: mask :: rest =>
-    let (us, rest) := match rest with
-      | u :: r => if u.startsWith "u" then ([u], r) else ([], rest)
-      | [] => ([], [])
+    let us := rest.takeWhile (·.startsWith "u")
+    let rest := rest.dropWhile (·.startsWith "u")
     match parseSlot c, parseXName name, holdTok rest, us.mapM parseUri with
     | some i, some id, some hold, some uris =>
       let d := y.slot i
       let kinds := parseMask mask
-      if !d.used || !d.connected || !d.modern || id < 10 || !listenShape kinds uris || d.parked.contains name
+      if !d.used || !d.connected || !d.modern || id < 10 || !decide uris.Nodup || d.parked.contains name
+         || d.cancelHeld.contains name
          || y.srv.listens.any (fun l => l.sid == d.sid && l.id == id) then (y, "refused") else
-      let (s, outs) := listenBoth y.srv d.sid id kinds uris
+      let (s, outs) := listenOrRefuse y d.sid id kinds uris
       let a := firstAck outs
       let parks := hold && a != "noack"
       let d := { d with parked := if parks then d.parked ++ [name] else d.parked }
       (({ y with srv := s }).setSlot i d, if parks then a ++ " parked" else a)
     | _, _, _, _ => (y, "bad-op")
-  | ["xend", c, name] =>
-    match parseSlot c, parseXName name with
-    | some i, some id =>
+  | "xend" :: c :: name :: rest =>
+    match parseSlot c, parseXName name, holdTok rest with
+    | some i, some id, some hold =>
       let d := y.slot i
-      if !d.used || !d.connected || !d.modern || d.parked.contains name || !y.srv.acked.contains (d.sid, id) then (y, "refused") else
+      if !d.used || !d.connected || !d.modern || d.parked.contains name || d.cancelHeld.contains name
+         || !y.srv.acked.contains (d.sid, id) then (y, "refused") else
+      if hold then (y.setSlot i { d with cancelHeld := d.cancelHeld ++ [name] }, "ok cancel-held") else
       ({ y with srv := listenEnd y.srv d.sid id }, "ok")
-    | _, _ => (y, "bad-op")
+    | _, _, _ => (y, "bad-op")
+  | ["canceldone", c, name] =>
+    match parseSlot c with
+    | some i =>
+      let d := y.slot i
+      if !d.used || !d.cancelHeld.contains name then (y, "refused") else
+      let id := match parseXName name with
+        | some id => id
+        | none => ((name.drop 1).toNat?.getD 0) + 1     -- r<j>
+      (({ y with srv := listenEnd y.srv d.sid id }).setSlot i { d with cancelHeld := d.cancelHeld.filter (· != name) }, "ok")
+    | none => (y, "bad-op")
   | ["ackdone", c, which] =>
     match parseSlot c with
     | some i =>
@@ -346,20 +432,24 @@ def modelStep (y : Sys) (toks : List String) : Sys × String :=
       -- the handler goes on: in the code that exists it has nothing left to do but wait for its end
       (y.setSlot i { d with parked := d.parked.filter (· != which) }, "ok")
     | none => (y, "bad-op")
-  | ["unsubscribe", c, u] =>
-    match parseSlot c, parseUri u with
-    | some i, some u =>
+  | "unsubscribe" :: c :: u :: rest =>
+    match parseSlot c, parseUri u, holdTok rest with
+    | some i, some u, some hold =>
       let d := y.slot i
-      if !d.used || !d.connected || d.parked.contains s!"r{u}" then (y, "refused") else
-      if !d.modern then ({ y with srv := unsubscribe y.srv d.sid u }, "ok") else
-      if !d.rsubs.contains u then (y, "ok") else
-      (({ y with srv := listenEnd y.srv d.sid (u + 1) }).setSlot i { d with rsubs := d.rsubs.filter (· != u) }, "ok")
-    | _, _ => (y, "bad-op")
+      if !d.used || !d.connected || d.parked.contains s!"r{u}" || d.cancelHeld.contains s!"r{u}" then (y, "refused") else
+      if !d.modern then
+        if hold then (y, "refused") else ({ y with srv := unsubscribe y.srv d.sid u }, "ok") else
+      if !d.rsubs.contains u then (if hold then (y, "refused") else (y, "ok")) else
+      let d := { d with rsubs := d.rsubs.filter (· != u) }
+      let d := d.setCache .read (Cache.step true (d.cache .read) (.unsub u)).1
+      if hold then (y.setSlot i { d with cancelHeld := d.cancelHeld ++ [s!"r{u}"] }, "ok cancel-held") else
+      (({ y with srv := listenEnd y.srv d.sid (u + 1) }).setSlot i d, "ok")
+    | _, _, _ => (y, "bad-op")
   | ["close", c] =>
     match parseSlot c with
     | some i =>
       let d := y.slot i
-      if !d.used || !d.connected || !d.held.isEmpty || !d.parked.isEmpty then (y, "refused") else
+      if !d.used || !d.connected || !d.held.isEmpty || !d.parked.isEmpty || !d.cancelHeld.isEmpty then (y, "refused") else
       (({ y with srv := close y.srv d.sid }).setSlot i {}, "ok")
     | none => (y, "bad-op")
   | ["rupdated", u] =>
@@ -367,8 +457,17 @@ def modelStep (y : Sys) (toks : List String) : Sys × String :=
     | some u =>
       let y := { y with content := fun k => if k == u then y.content u + 1 else y.content k }
       let y := y.cacheAll .read (.bump (fun k => k == u))
-      deliverUpdated y u (updList y.srv u)
+      deliverUpdated y u u (updList y.srv u)
     | none => (y, "bad-op")
+  | ["rupdated", u, "names", v] =>
+    match parseUri u, parseUri v with
+    | some u, some v =>
+      let y := { y with content := fun k => if k == v then y.content v + 1 else y.content k }
+      let y := y.cacheAll .read (.bump (fun k => k == v))
+      match (step y.srv (.updatedNamed u v)).2 with
+      | [.updatedNamed _ _ to] => deliverUpdated y u v to
+      | _ => (y, "bad-op")
+    | _, _ => (y, "bad-op")
   | ["list", c, key, mode] =>
     match parseSlot c, parseKey key with
     | some i, some (o, k) =>
@@ -469,6 +568,16 @@ structure MSlot where
   invalidated : List String := []
   suspect : List (String × Nat) := []
   starts : List (String × Nat) := []   -- held calls: key ↦ maxHandled when the call started
+  midFan : List Kind := []       -- a held fan-out of the kind had written to this session when a further change was made
+  refusedUris : List Nat := []   -- URIs of subscriptions/listen requests of this session that got no acknowledgement while the SubscribeHandler refused one of them
+  csubs : List Nat := []         -- cs.resourceSubs as the calls of Subscribe / Unsubscribe leave it
+  offTable : List String := []   -- read keys whose resource-updated was handled while the URI was not in cs.resourceSubs
+
+/-- A fan-out of `notifySessions(kind)` whose loop is held before every write. -/
+structure MFan where
+  kind : Kind
+  expect : List (Nat × List String) := []    -- slots entitled when the snapshot was taken, and the stamps that were right then
+  served : List Nat := []
 
 structure Mon where
   cap : Kind → Cap := fun _ => .unset
@@ -476,6 +585,8 @@ structure Mon where
   cnt : FSet → Nat := fun _ => 0
   content : Nat → Nat := fun _ => 0
   slots : List MSlot := [{}, {}, {}]
+  refused : List Nat := []
+  fans : List MFan := []
 
 def Mon.slot (m : Mon) (i : Nat) : MSlot := m.slots.getD i {}
 def Mon.setSlot (m : Mon) (i : Nat) (d : MSlot) : Mon := { m with slots := setAt m.slots i d }
@@ -594,6 +705,10 @@ def parseRet (impl : String) : Option (Nat × Bool) :=
 /-- Check a returned version against the notifications handled before the call started. -/
 def checkRet (d : MSlot) (key : String) (v : Nat) (hit : Bool) (startMax : Nat) : Option String :=
   if v < startMax then
+    if hit && key.startsWith "read:" && (d.suspect.lookup key) != some v then
+      some ("C18: invalidate_on_every_handled_update: a read issued after the client handled a notifications/resources/updated naming that URI was answered from the cache with the content from before the update — the handled notification did not invalidate the read cache" ++
+        (if d.offTable.contains key then " (the client held no Subscribe entry for the URI when it handled the update: the update named a sub-resource of what it subscribed to, or arrived on a stream opened below Subscribe, or overtook the cancellation after Unsubscribe)" else ""))
+    else
     if hit && (d.suspect.lookup key) == some v then
       some "C18: F7 list_after_notification_fresh: a response obtained before the notification was put into the cache after the client handled it and is served to a later call (cache has no generation)"
     else some "C18: list_after_notification_fresh: call started after a handled notification returned an older version"
@@ -633,6 +748,11 @@ def monitorStep (m : Mon) (toks : List String) (impl : String) : Mon × Option S
       let m := { m with ver := fun f' => if f' == f then m.ver f + 1 else m.ver f',
                         cnt := fun f' => if f' == f then (match e with | .add => m.cnt f + 1 | .remove => m.cnt f - 1 | _ => m.cnt f) else m.cnt f' }
       if m.cap k == .off then (m, none) else
+      -- a held fan-out of the kind: what it writes from now on was decided before this change
+      let servedMid : List Nat := (m.fans.filter (·.kind == k)).flatMap (·.served)
+      let m := { m with slots := (List.range 3).map (fun i =>
+                          let d := m.slot i
+                          if servedMid.contains i && !d.midFan.contains k then { d with midFan := d.midFan ++ [k] } else d) }
       (m.mapSlots (fun d => if d.connected && !d.owed.contains k then { d with owed := d.owed ++ [k] } else d), none)
     | _, _ => (m, none)
   | ["cbrun", k] =>
@@ -665,13 +785,98 @@ def monitorStep (m : Mon) (toks : List String) (impl : String) : Mon × Option S
         let m := { m with slots := (List.range 3).map (fun i =>
           let d := m.slot i
           if got i then ({ d with owed := d.owed.filter (· != k), skipped := d.skipped.filter (· != k),
-                                  skippedAck := d.skippedAck.filter (· != k) }).handled m (keysOfKind k)
+                                  skippedAck := d.skippedAck.filter (· != k), midFan := d.midFan.filter (· != k) }).handled m (keysOfKind k)
           else if d.owed.contains k && entitledNow d k then
             { d with skipped := if d.skipped.contains k then d.skipped else d.skipped ++ [k],
                      skippedAck := if d.modern && d.windowK k && !d.skippedAck.contains k
                                    then d.skippedAck ++ [k] else d.skippedAck }
           else { d with owed := d.owed.filter (· != k) }) }
         (m, viol)
+  | ["policy", u, pol] =>
+    match parseUri u with
+    | some u => ({ m with refused := if pol == "refuse" then m.refused ++ [u] else m.refused.filter (· != u) }, none)
+    | none => (m, none)
+  | ["cbrun", k, "step"] =>
+    match parseKind k with
+    | none => (m, none)
+    | some k =>
+      if !impl.startsWith "fan" then (m, none) else
+      -- the snapshot is taken now: who is entitled now is to be written to, under a stamp that is right now
+      let expect := (List.range 3).filterMap (fun i =>
+        let d := m.slot i
+        if entitledNow d k then
+          some (i, if d.modern then (d.listens.filter (·.kinds.contains k)).map (·.name) else ["plain"])
+        else none)
+      let m := { m with slots := (List.range 3).map (fun i =>
+        let d := m.slot i
+        if expect.any (·.1 == i) then d else { d with owed := d.owed.filter (· != k) }) }
+      let fan : MFan := { kind := k, expect := expect }
+      if impl == "fan done" then
+        -- nothing to write: every entitled session in debt was skipped
+        let m := { m with slots := (List.range 3).map (fun i =>
+          let d := m.slot i
+          if expect.any (·.1 == i) && d.owed.contains k then
+            { d with skipped := if d.skipped.contains k then d.skipped else d.skipped ++ [k],
+                     skippedAck := if d.modern && d.windowK k && !d.skippedAck.contains k then d.skippedAck ++ [k] else d.skippedAck }
+          else d) }
+        (m, none)
+      else ({ m with fans := m.fans.filter (·.kind != k) ++ [fan] }, none)
+  | ["fsend", k] =>
+    match parseKind k with
+    | none => (m, none)
+    | some k =>
+      match words impl with
+      | addr :: rest =>
+        if rest.isEmpty then (m, none) else
+        let last := rest.getLast?.getD ""
+        let body := String.intercalate " " rest.dropLast
+        match m.fans.find? (·.kind == k), parseDeliveries body with
+        | some fan, some (_, ds) =>
+          let perDelivery := ds.map (fun x =>
+            let d := m.slot x.slot
+            if x.method != listChangedMethod k then some "C18: fanout_entitled_only: a callback of one kind sent another kind's notification"
+            else if m.cap k == .off then some "C18: none_when_disabled: list_changed delivered although the capability is switched off"
+            else if !d.connected then some "C18: fanout_entitled_only: delivery to a session that is not connected"
+            else if !d.modern && x.stamp != "plain" then some "C18: fanout_entitled_only: legacy session got a stamped notification"
+            else match fan.expect.find? (·.1 == x.slot) with
+              | none => some "C18: sent_was_snapshot / fanout_entitled_only: a held fan-out wrote to a session that was not entitled when its snapshot was taken"
+              | some (_, stamps) =>
+                if !stamps.contains x.stamp then
+                  some "C18: sent_was_snapshot / fanout_entitled_only: a held fan-out stamped its notification with an id that belonged to no listen of the session granted the kind when the snapshot was taken"
+                else if fan.served.contains x.slot then some "C18: fanout_entitled_only: a session got the same notification twice"
+                else if x.hk != "-" && x.hk != kindLetter k then some "C18: fanout_entitled_only: notification dispatched to the wrong client handler"
+                else none)
+          let dropped := match parseSlot addr with
+            | some i => if ds.isEmpty && (m.slot i).connected && fan.expect.any (·.1 == i) then
+                some "C18: at_least_one_after_burst (blocked fan-out): the write of the fan-out to a connected, entitled session delivered nothing" else none
+            | none => none
+          let got (i : Nat) : Bool := ds.any (·.slot == i)
+          -- the session handles this notification NOW, after every change made so far — also those made since
+          -- the snapshot: its debt is discharged (the sessions written to BEFORE such a change are the ones
+          -- that depend on the change arming a timer of its own: `change_during_fanout_announced`)
+          let m := { m with slots := (List.range 3).map (fun i =>
+            let d := m.slot i
+            if got i then
+              ({ d with owed := d.owed.filter (· != k), skipped := d.skipped.filter (· != k),
+                        skippedAck := d.skippedAck.filter (· != k), midFan := d.midFan.filter (· != k) }).handled m (keysOfKind k)
+            else d) }
+          let fan := { fan with served := fan.served ++ ds.map (·.slot) }
+          let m :=
+            if last == "done" then
+              { m with fans := m.fans.filter (·.kind != k),
+                       slots := (List.range 3).map (fun i =>
+                         let d := m.slot i
+                         if fan.expect.any (·.1 == i) && !fan.served.contains i && d.owed.contains k && entitledNow d k then
+                           { d with skipped := if d.skipped.contains k then d.skipped else d.skipped ++ [k] }
+                         else d) }
+            else { m with fans := m.fans.map (fun f => if f.kind == k then fan else f) }
+          (m, first (perDelivery ++ [dropped]))
+        | _, _ => (m, none)
+      | [] => (m, none)
+  | ["canceldone", c, name] =>
+    match parseSlot c with
+    | some i => if impl == "ok" then (m.setSlot i ((m.slot i).endListen name), none) else (m, none)
+    | none => (m, none)
   | ["connect", c, _, g, _] =>
     match parseSlot c with
     | some i =>
@@ -683,13 +888,19 @@ def monitorStep (m : Mon) (toks : List String) (impl : String) : Mon × Option S
       let d := (m.slot i).addListen "m" ks us
       (m.setSlot i { d with window := if parked then d.window ++ ["m"] else d.window }, none)
     | _, _ => (m, none)
-  | "xlisten" :: c :: name :: _ =>
+  | "xlisten" :: c :: name :: _ :: rest =>
     match parseSlot c, parseAck impl with
     | some i, some (ks, us, parked) =>
       let d := (m.slot i).addListen name ks us
       (m.setSlot i { d with window := if parked then d.window ++ [name] else d.window }, none)
+    | some i, none =>
+      let us := rest.filterMap parseUri
+      let d := m.slot i
+      if impl == "noack" && us.any m.refused.contains then
+        (m.setSlot i { d with refusedUris := d.refusedUris ++ us.filter (fun u => !d.refusedUris.contains u) }, none)
+      else (m, none)
     | _, _ => (m, none)
-  | ["xend", c, name] =>
+  | "xend" :: c :: name :: _ =>
     match parseSlot c with
     | some i => if impl == "ok" then (m.setSlot i ((m.slot i).endListen name), none) else (m, none)
     | none => (m, none)
@@ -703,8 +914,13 @@ def monitorStep (m : Mon) (toks : List String) (impl : String) : Mon × Option S
         match parseAck impl with
         | some (ks, us, parked) =>
           let d := d.addListen s!"r{u}" ks us
-          (m.setSlot i { d with window := if parked then d.window ++ [s!"r{u}"] else d.window }, none)
-        | none => (m, none)
+          (m.setSlot i { d with window := if parked then d.window ++ [s!"r{u}"] else d.window,
+                                csubs := if d.csubs.contains u then d.csubs else d.csubs ++ [u] }, none)
+        | none =>
+          if impl == "noack" then
+            (m.setSlot i { d with csubs := if d.csubs.contains u then d.csubs else d.csubs ++ [u],
+                                  refusedUris := if m.refused.contains u && !d.refusedUris.contains u then d.refusedUris ++ [u] else d.refusedUris }, none)
+          else (m, none)
     | _, _ => (m, none)
   | ["ackdone", c, which] =>
     match parseSlot c with
@@ -712,24 +928,35 @@ def monitorStep (m : Mon) (toks : List String) (impl : String) : Mon × Option S
       let d := m.slot i
       if impl.startsWith "ok" then (m.setSlot i { d with window := d.window.filter (· != which) }, none) else (m, none)
     | none => (m, none)
-  | ["unsubscribe", c, u] =>
+  | "unsubscribe" :: c :: u :: _ =>
     match parseSlot c, parseUri u with
     | some i, some u =>
       let d := m.slot i
       if impl == "ok" then
-        if d.modern then (m.setSlot i (d.endListen s!"r{u}"), none)
+        if d.modern then (m.setSlot i { (d.endListen s!"r{u}") with csubs := d.csubs.filter (· != u) }, none)
         else (m.setSlot i { d with luris := d.luris.filter (· != u) }, none)
+      else if impl == "ok cancel-held" then
+        -- Unsubscribe has returned: cs.resourceSubs no longer has the URI; the stream is live until the cancellation arrives
+        (m.setSlot i { d with csubs := d.csubs.filter (· != u) }, none)
       else (m, none)
     | _, _ => (m, none)
   | ["close", c] =>
     match parseSlot c with
-    | some i => if impl == "ok" then (m.setSlot i {}, none) else (m, none)
+    | some i =>
+      if impl == "ok" then
+        ({ (m.setSlot i {}) with fans := m.fans.map (fun f =>
+            { f with expect := f.expect.filter (·.1 != i), served := f.served.filter (· != i) }) }, none)
+      else (m, none)
     | none => (m, none)
-  | ["rupdated", u] =>
-    match parseUri u with
-    | none => (m, none)
-    | some u =>
-      let m := { m with content := fun k => if k == u then m.content u + 1 else m.content k }
+  | "rupdated" :: u :: named =>
+    let vOpt : Option Nat := match named with
+      | [] => parseUri u
+      | ["names", v] => parseUri v
+      | _ => none
+    match parseUri u, vOpt with
+    | some u, some v =>
+      -- the subscribers of u are notified; the notification names v, whose content has changed
+      let m := { m with content := fun k => if k == v then m.content v + 1 else m.content k }
       match parseDeliveries impl with
       | none => (m, some "C18: malformed delivery record")
       | some (_, ds) =>
@@ -745,21 +972,32 @@ def monitorStep (m : Mon) (toks : List String) (impl : String) : Mon × Option S
               if d.modern && d.windowU u then
                 some "C18: ack_after_registration: the server acknowledged the session's subscription to the URI, but a ResourceUpdated call made while the listen handler was still held right after the acknowledgement write did not reach the session (the subscription is registered after it is acknowledged)"
               else some "C18: updated_reaches_exactly_subscribers: a session subscribed to the URI was not notified"
-          else if !want && n > 0 then some "C18: updated_reaches_exactly_subscribers: a session not subscribed to the URI was notified"
+          else if !want && n > 0 then
+            if d.refusedUris.contains u then
+              some "C18: refused_listen_leaves_no_subscription: the session's subscriptions/listen request naming the URI was refused by the SubscribeHandler (no acknowledgement, no stream), yet a ResourceUpdated call for the URI reached the session: the URIs registered before the refused one stayed subscribed"
+            else some "C18: updated_reaches_exactly_subscribers: a session not subscribed to the URI was notified"
           else if n > 1 then some "C18: updated_reaches_exactly_subscribers: a subscriber was notified more than once"
           else none)
         let perDelivery := ds.map (fun x =>
           let d := m.slot x.slot
           if x.method != resourceUpdatedMethod then some "C18: updated_reaches_exactly_subscribers: wrong notification method"
-          else if x.hk != s!"u{u}" then some "C18: updated_reaches_exactly_subscribers: notification for another URI"
+          else if x.hk != s!"u{v}" then some "C18: updated_reaches_exactly_subscribers: notification for another URI"
           else if !d.modern && x.stamp != "plain" then some "C18: updated_reaches_exactly_subscribers: legacy session got a stamped notification"
           else if d.modern && !d.listens.any (fun l => l.name == x.stamp && l.uris.contains u) then
-            some "C18: updated_reaches_exactly_subscribers: not stamped with the request id of a live listen of the session that carries the subscription"
+            if d.refusedUris.contains u && !d.grantedU u then none   -- reported per slot above
+            else some "C18: updated_reaches_exactly_subscribers: not stamped with the request id of a live listen of the session that carries the subscription"
           else none)
         let m := { m with slots := (List.range 3).map (fun i =>
           let d := m.slot i
-          if got i then d.handled m [s!"read:{u}"] else d) }
+          if got i then
+            let key := s!"read:{v}"
+            let d := d.handled m [key]
+            if d.modern && !d.csubs.contains v then
+              { d with offTable := if d.offTable.contains key then d.offTable else d.offTable ++ [key] }
+            else { d with offTable := d.offTable.filter (· != key) }
+          else d) }
         (m, first (perSlot ++ perDelivery))
+    | _, _ => (m, none)
   | ["list", c, key, mode] =>
     match parseSlot c with
     | none => (m, none)
@@ -812,7 +1050,7 @@ def monitorStep (m : Mon) (toks : List String) (impl : String) : Mon × Option S
       if !d.connected then none else
       let kindMiss := if !d.modern then [] else Kind.all.filter (fun k => d.grantedK k &&
         !d.listens.any (fun l => l.kinds.contains k && has (kindLetter k).toUpper s!"c{i}={l.name}"))
-      let uriMiss := (List.range 2).filter (fun u => d.grantedU u &&
+      let uriMiss := (List.range 3).filter (fun u => d.grantedU u &&
         (if d.modern then !d.listens.any (fun l => l.uris.contains u && has s!"U{u}" s!"c{i}={l.name}")
          else !has s!"U{u}" s!"c{i}=q"))
       match first (kindMiss.map (fun k => d.lostClause (kindLetter k) "table dump") ++
@@ -832,9 +1070,23 @@ def monitorStep (m : Mon) (toks : List String) (impl : String) : Mon × Option S
       if !d.connected || !d.modern then d else
       let d := Kind.all.foldl (fun d k =>
         if d.listens.any (fun l => l.kinds.contains k && has (kindLetter k).toUpper s!"c{i}={l.name}") then d.present (kindLetter k) else d) d
-      (List.range 2).foldl (fun d u =>
+      (List.range 3).foldl (fun d u =>
         if d.listens.any (fun l => l.uris.contains u && has s!"U{u}" s!"c{i}={l.name}") then d.present s!"u{u}" else d) d) }
-    (m, first ((if bad then some "C18: closed_sessions_forgotten: a subscription table or the session list still mentions a closed session" else none) :: missing))
+    -- no table holds an entry of a 2026-07-28 session under an id that is not the id of a live, acknowledged
+    -- listen of that session granted the table's kind / URI (a refused request leaves nothing behind)
+    let foreign := (List.range 3).map (fun i =>
+      let d := m.slot i
+      if !d.connected || !d.modern then none else
+      let badK := Kind.all.any (fun k => ((tabs.lookup (kindLetter k).toUpper).getD []).any (fun e =>
+        e.startsWith s!"c{i}=" && !d.listens.any (fun l => l.kinds.contains k && e == s!"c{i}={l.name}")))
+      let badU := (List.range 3).filter (fun u => ((tabs.lookup s!"U{u}").getD []).any (fun e =>
+        e.startsWith s!"c{i}=" && !d.listens.any (fun l => l.uris.contains u && e == s!"c{i}={l.name}")))
+      if badU.any d.refusedUris.contains then
+        some "C18: refused_listen_leaves_no_subscription: resourceSubscriptions still holds the session for a URI of a subscriptions/listen request that the SubscribeHandler refused (no acknowledgement, no stream): the URIs registered before the refused one were not unsubscribed"
+      else if badK || !badU.isEmpty then
+        some "C18: acked_stays_registered / refused_listen_leaves_no_subscription: a subscription table holds a 2026-07-28 session under a request id that is not the id of a live, acknowledged listen of that session granted that kind or URI"
+      else none)
+    (m, first ((if bad then some "C18: closed_sessions_forgotten: a subscription table or the session list still mentions a closed session" else none) :: missing ++ foreign))
   | ["end"] =>
     let left := (List.range 3).map (fun i =>
       let d := m.slot i
@@ -844,7 +1096,9 @@ def monitorStep (m : Mon) (toks : List String) (impl : String) : Mon × Option S
         match (if d.modern then d.lostClause (kindLetter k) "no notification reached the session after the last change" else none) with
         | some c => some c
         | none =>
-          if d.modern && d.skippedAck.contains k then
+          if d.midFan.contains k then
+            some "C18: at_least_one_after_burst (blocked fan-out) / change_during_fanout_announced: a change was made while a list-changed fan-out of the same kind was in progress — this session had already been written to, a later write of the loop was still blocked — and the change was never announced to the session: no notification sent after the change reached it although every timer has fired and every callback has run"
+          else if d.modern && d.skippedAck.contains k then
             some "C18: ack_after_registration / at_least_one_after_burst: the session held the acknowledgement of its list-changed subscription when the callback took its snapshot (the listen handler was held right after the acknowledgement write), the snapshot did not include it, and no later notification reached it"
           else if d.modern && d.endedOther then
             some "C18: F19 at_least_one_after_burst: the session's list-changed subscription was dropped when another subscriptions/listen of the same session ended"
@@ -864,7 +1118,7 @@ def engine : Engine DState where
     match toks with
     | ["reset"] => ({}, { model := "ok" })
     | _ =>
-      let (sys', model) := modelStep d.sys toks
+      let (sys', model) := modelStep d.sys toks impl
       let (mon', viol) := monitorStep d.mon toks impl
       ({ sys := sys', mon := mon' }, { model := model, violated := viol })
 
